@@ -37,5 +37,11 @@ func LogSub(a, b float64) float64 {
   if math.IsInf(b, -1) {
     return a
   }
-  return a + math.Log1p(-math.Exp(b-a))
+  // log(1 - exp(x)), x = b-a <= 0: for x close to zero 1 - exp(x) cancels,
+  // use log(-expm1(x)) there (Maechler, "Accurately computing log(1 - exp(-|a|))")
+  if x := b-a; x > -math.Ln2 {
+    return a + math.Log(-math.Expm1(x))
+  } else {
+    return a + math.Log1p(-math.Exp(x))
+  }
 }
